@@ -192,8 +192,14 @@ Process(ev, i) ==
                 \cup V(ev.last_bytes = 0 \/ ev.blob = ev.last_bytes, "FileHoldsLatest")
                 \cup V(ev.blob = 0 \/ ev.loadable, "Loadable")
                 \cup V((~Cfg.expect_cfg) \/ (ev.has_cfg /\ ev.has_flow), "ConfigAndFlowFirst")
+                \* "the file contains the proposal": the one this run samples with, not the one an
+                \* earlier fit left there
+                \cup V(ev.flow_cur # "stale", "FlowIsCurrent")
                 \* the library's own file callback: the file changes exactly when a checkpoint is due
                 \cup V(RC.ckpt_events \/ (~RC.has_path) \/ ev.blob_iter = expIter, "CadenceExact")]
+    [] ev.t = "fault" ->
+         \* sample() was left through an exception raised inside a user call
+         [s |-> s, aux |-> aux, gaux |-> gaux, v |-> V(ev.nlike = aux.sumN, "CountExact")]
     [] ev.t = "partial" ->
          [s |-> s, aux |-> aux, gaux |-> gaux,
           v |-> V(\A k \in 1..Len(ev.betas) : ev.betas[k] > (IF k = 1 THEN G.zero ELSE ev.betas[k - 1]),
